@@ -5,8 +5,9 @@ mod c40;
 mod c41;
 mod c42;
 mod c44;
+mod kadnet;
 mod util;
 
 fn main() {
-    vmon::run_main(&[("C37", c37::run), ("C38", c38::run), ("C39", c39::run), ("C40", c40::run), ("C41", c41::run), ("C42", c42::run), ("C44", c44::run)]);
+    vmon::run_main(&[("C37", c37::run), ("C38", c38::run), ("C39", c39::run), ("C40", c40::run), ("C41", c41::run), ("C42", c42::run), ("C43", kadnet::run_c43), ("C44", c44::run)]);
 }
